@@ -4127,3 +4127,17 @@ E("EQ-C16-tx-keyspace-local", _STXM,
   """        let keyspace = self.inner.keyspace(name, create_options)?;""",
   """        let db = &self.inner;
         let keyspace = db.keyspace(name, create_options)?;""", props=["C16", "C18", "C12"])
+
+# ---- R-C17.14 version byte tables
+_VER = "src/version.rs"
+B("C17-version-writer-table-slip", "C17", "C17:R-C17.14:version::<impl std::convert::From<version::FormatVersion> for u8>::from:byte-tables-are-inverse", _VER,
+  """            FormatVersion::V3 => 3,""", """            FormatVersion::V3 => 4,""")
+B("C17-version-reader-accepts-foreign-byte", "C17", "C17:R-C17.14:version::<impl std::convert::From<version::FormatVersion> for u8>::from:byte-tables-are-inverse", _VER,
+  """            3 => Ok(Self::V3),""", """            3 | 4 => Ok(Self::V3),""")
+B("C17-header-writes-discriminant", "C17", "C17:R-C17.14:version::FormatVersion::write_file_header:header-is-magic-then-table-byte", _VER,
+  """        writer.write_u8(u8::from(self))?;""", """        writer.write_u8(self as u8)?;""")
+B("C17-new-database-stamped-v2", "C17", "C17:R-C17.14:db::Database::create_new:new-database-is-stamped-with-the-accepted-version", DB,
+  """        FormatVersion::V3.write_file_header(&mut marker)?;""", """        FormatVersion::V2.write_file_header(&mut marker)?;""")
+E("EQ-C17-version-table-into", _VER,
+  """        writer.write_u8(u8::from(self))?;""", """        let byte: u8 = self.into();
+        writer.write_u8(byte)?;""", props=["C17", "C09"])
